@@ -215,7 +215,8 @@ pub async fn exec_602(a: &Args) -> Args {
             std::mem::forget(r);
         }
     }
-    tokio::time::sleep(Duration::from_millis(200)).await;
+    // the worker has to take them all from the QUIC accept queue before the session ends
+    tokio::time::sleep(Duration::from_millis(400)).await;
     let c1 = conn.clone();
     let c3 = conn.clone();
     let p_other = tokio::spawn(async move { if kind == 0 { call_bi(&c1, T_PEND).await } else { call_uni(&c1, T_PEND).await } });
